@@ -327,8 +327,9 @@ def custom_check(tier, seed, nproc=None):
         "wall_s": round(wall, 2),
         "violations": n_viol,
     }
-    os.makedirs(os.path.join(VERIF, "evidence"), exist_ok=True)
-    json.dump(ev, open(os.path.join(VERIF, "evidence", "C15.json"), "w"), indent=1, sort_keys=True, default=repr)
+    if os.environ.get("SIMJS_NO_EVIDENCE") != "1":
+        os.makedirs(os.path.join(VERIF, "evidence"), exist_ok=True)
+        json.dump(ev, open(os.path.join(VERIF, "evidence", "C15.json"), "w"), indent=1, sort_keys=True, default=repr)
     for h in harness:
         print("HARNESS: %s" % h[:500])
     print("C15 %s: %d cases x %d variants (%d hash seeds), %d differing, %.1fs" % (
